@@ -147,6 +147,33 @@ func ParseSpacing(value string) (*Spacing, error) {
 	return &spacing, nil
 }
 
+// ParseHorizontalSpacing returns the left and right values of a CSS spacing shorthand with one to
+// four values ("10px", "10px 20px", "10px 20px 30px", "10px 20px 30px 40px"). Unlike ParseSpacing it
+// accepts the three-value form (top, left/right, bottom), which width calculations must honour.
+func ParseHorizontalSpacing(value string) (left, right float64, ok bool) {
+	parts := strings.Fields(value)
+	var l, r string
+	switch len(parts) {
+	case 1:
+		l, r = parts[0], parts[0]
+	case 2, 3:
+		l, r = parts[1], parts[1]
+	case 4:
+		l, r = parts[3], parts[1]
+	default:
+		return 0, 0, false
+	}
+	lp, err := ParsePixel(l)
+	if err != nil || lp == nil {
+		return 0, 0, false
+	}
+	rp, err := ParsePixel(r)
+	if err != nil || rp == nil {
+		return 0, 0, false
+	}
+	return lp.Value, rp.Value, true
+}
+
 // Color represents a CSS color value with validation and normalization.
 // It handles various CSS color formats including hex, named colors, rgb, rgba, etc.
 type Color struct {
